@@ -128,7 +128,7 @@ func (x *xhist) xset(t int, k, v []byte) {
 }
 
 // xget = hist.get, keeping the observation for the serializability oracle
-func (x *xhist) xget(t int, k []byte) {
+func (x *xhist) xget(t int, k []byte) (bool, []byte) {
 	tx := x.txns[t]
 	ct := x.tx[t]
 	item, err := tx.Get(k)
@@ -152,7 +152,7 @@ func (x *xhist) xget(t int, k []byte) {
 	}
 	x.emit(fmt.Sprintf("(Get %d %s %s)", t, B(k), term), fmt.Sprintf("t%d get %x -> %s", t, k, d))
 	if len(k) == 0 || (err != nil && !errors.Is(err, badger.ErrKeyNotFound)) {
-		return
+		return false, nil
 	}
 	want := x.refVisible(t, k, now)
 	ok := (want == nil && got == nil) || (want != nil && got != nil && got.Ver == want.Ver && bytes.Equal(got.Val, want.Val))
@@ -166,6 +166,10 @@ func (x *xhist) xget(t int, k []byte) {
 			ct.reads = append(ct.reads, r)
 		}
 	}
+	if got != nil {
+		return true, got.Val
+	}
+	return false, nil
 }
 
 // xiter: forward / reverse iteration (optionally with a prefix and a Seek key), every yielded
@@ -780,6 +784,139 @@ func scenarioF12(c *Ctx, tooBig bool, managed bool) (*xhist, bool, error) {
 	return x, reproduced, nil
 }
 
+// windowSchedule: a reader in every window of a commit.  The writer (or the committing goroutine)
+// is stopped by a hook inside the real Commit: after the i-th entry of the request went into the
+// memtable ("persist.wal.put" i), after all of them but before the acknowledgement
+// ("persist.batch.ack"), or after the timestamp was handed out and before the request is queued
+// ("sendToWriteCh.beforeSend").  In that window: an older reader must see none of the commit's
+// writes, Commit must not have returned, a transaction started now gets the commit's timestamp as
+// read timestamp and (once NewTransaction returns) sees all of the writes.  The linearised labels
+// (reads in the window before the Commit label) are replayed by the Coq model.
+func windowSchedule(c *Ctx, win, nkeys int) (*xhist, error) {
+	x, err := newXHist(c, sysOpts{Detect: true, NKeep: 1, MaxLevels: 4, VThreshold: 32, TableSize: 1 << 20, BaseLevelSize: 8 << 10})
+	if err != nil {
+		return nil, err
+	}
+	defer x.close()
+	keys := make([][]byte, nkeys)
+	for i := range keys {
+		keys[i] = []byte(fmt.Sprintf("k%d", i))
+	}
+	x.xbegin(0, true, 0)
+	for _, k := range keys {
+		x.xset(0, k, []byte("0"))
+	}
+	x.xcommit(0, 0)
+	x.xbegin(1, false, 0) // the older reader
+	x.xbegin(3, true, 0)  // the writer
+	for i, k := range keys {
+		v := []byte("1")
+		if i%2 == 1 {
+			v = bytes.Repeat([]byte("1"), 40) // above the value threshold: goes through the value log
+		}
+		x.xset(3, k, v)
+	}
+	target, idx := "persist.wal.put", win
+	switch {
+	case win == nkeys:
+		target, idx = "persist.batch.ack", -1
+	case win == nkeys+1:
+		target, idx = "sendToWriteCh.beforeSend", -1
+	}
+	var armed atomic.Bool
+	reached := make(chan struct{}, 1)
+	release := make(chan struct{})
+	badger.VerifSetController(&badger.VerifController{Point: func(name string, args ...uint64) {
+		if name != target || !armed.Load() {
+			return
+		}
+		if idx >= 0 && (len(args) == 0 || args[0] != uint64(idx)) {
+			return
+		}
+		if armed.CompareAndSwap(true, false) {
+			reached <- struct{}{}
+			<-release
+		}
+	}})
+	armed.Store(true)
+	done := make(chan int, 1)
+	go func() { done <- x.xcommit(3, 0) }()
+	select {
+	case <-reached:
+	case <-time.After(20 * time.Second):
+		close(release)
+		return x, fmt.Errorf("window schedule: hook %s/%d was not reached", target, idx)
+	}
+	rep := J{"window": fmt.Sprintf("%s/%d", target, idx), "keys": nkeys}
+	// (1) the older reader, inside the window
+	none := true
+	for _, k := range keys {
+		_, v := x.xget(1, k)
+		if !bytes.Equal(v, []byte("0")) {
+			none = false
+		}
+	}
+	x.xiter(1, false, nil, nil)
+	c.Oracle(none, "c03-partial-commit-observed", "a reader below the commit timestamp saw a write of a commit that is being applied", rep)
+	// (2) Commit has not returned
+	c.Oracle(len(done) == 0, "c03-commit-returned-before-applied", "Commit returned while its request was still being applied", rep)
+	// (3) a transaction started inside the window
+	r1 := make(chan *badger.Txn, 1)
+	go func() { r1 <- x.db.NewTransaction(false) }()
+	var tx1 *badger.Txn
+	select {
+	case tx1 = <-r1:
+		c.Count("window-reader-not-blocked")
+	case <-time.After(15 * time.Millisecond):
+		c.Count("window-reader-blocked-until-ack")
+	}
+	close(release)
+	code := <-done
+	if tx1 == nil {
+		tx1 = <-r1
+	}
+	if code != 0 {
+		return x, fmt.Errorf("window schedule: commit failed with code %d", code)
+	}
+	x.txns[4], x.tupd[4], x.tpend[4] = tx1, false, nil
+	x.tx[4] = &ctxn{id: 4, rts: tx1.VerifReadTs(), writes: map[string][]byte{}}
+	x.emit(fmt.Sprintf("(Begin 4 false %d)", tx1.VerifReadTs()), fmt.Sprintf("begin t4 (inside the window) rts=%d", tx1.VerifReadTs()))
+	nNew := 0
+	for _, k := range keys {
+		_, v := x.xget(4, k)
+		if len(v) > 0 && v[0] == '1' {
+			nNew++
+		}
+	}
+	c.Oracle(nNew == 0 || nNew == nkeys, "c03-partial-commit-observed", "a transaction started while a commit was being applied saw only part of it", rep)
+	c.Oracle(nNew == nkeys, "c03-commit-not-visible-at-its-timestamp", "a transaction whose read timestamp is the commit's timestamp does not see the commit", rep)
+	// (4) a transaction started after Commit returned
+	x.xbegin(5, false, 0)
+	nNew = 0
+	for _, k := range keys {
+		_, v := x.xget(5, k)
+		if len(v) > 0 && v[0] == '1' {
+			nNew++
+		}
+	}
+	x.xiter(5, c.Rng.Intn(2) == 0, nil, nil)
+	c.Oracle(nNew == nkeys, "c03-commit-not-visible-after-return", "a transaction started after Commit returned does not see all of its writes", rep)
+	// the older reader still sees none of it
+	none = true
+	for _, k := range keys {
+		_, v := x.xget(1, k)
+		if !bytes.Equal(v, []byte("0")) {
+			none = false
+		}
+	}
+	c.Oracle(none, "c03-partial-commit-observed", "a reader below the commit timestamp saw a write of a later commit", rep)
+	x.xdiscard(1)
+	x.xdiscard(4)
+	x.xdiscard(5)
+	x.serialCheck()
+	return x, nil
+}
+
 func xInput(x *xhist) J {
 	d := x.desc
 	if len(d) > 30 {
@@ -809,6 +946,14 @@ func runConcSchedules(c *Ctx, c03 bool) error {
 		var err error
 		kind := "random"
 		switch {
+		case c03 && i%7 == 1:
+			nk := 2 + (i/7)%3
+			w := (i / 21) % (nk + 2)
+			kind = fmt.Sprintf("window-%d", w-nk)
+			if w < nk {
+				kind = "window-entry"
+			}
+			x, err = windowSchedule(c, w, nk)
 		case i%5 == 0:
 			k := (i / 5) % 9
 			managed := (i/45)%2 == 1
